@@ -10,15 +10,24 @@ impl Operation for Op {
     type Output = u8;
 }
 
+/// an operation whose answer is a length-prefixed string
+#[derive(Clone, PartialEq, Eq, Debug, Serialize, Deserialize)]
+pub struct OpS(pub u8);
+impl Operation for OpS {
+    type Output = String;
+}
+
 #[crux_core::macros::effect]
 pub enum Effect {
     Op(Op),
+    OpS(OpS),
 }
 
 #[derive(Clone, PartialEq, Eq, Debug, Serialize, Deserialize)]
 pub enum Event {
     Start(u8),
     Got(u8),
+    Blob(Vec<u8>),
 }
 
 #[derive(Default)]
@@ -76,6 +85,7 @@ fn program(p: u8) -> Command<Effect, Event> {
             Command::request_from_shell(Op(11)).then_send(Event::Got),
             Command::request_from_shell(Op(12)).then_send(|v: u8| Event::Got(v.wrapping_add(100))),
         ]),
+        8 => Command::request_from_shell(OpS(1)).then_send(|s: String| Event::Got(s.len() as u8)),
         _ => Command::new(|ctx| async move {
             ctx.notify_shell(Op(21));
             ctx.notify_shell(Op(22));
@@ -98,6 +108,10 @@ impl crux_core::App for App {
                 model.log.push(v);
                 Command::done()
             }
+            Event::Blob(b) => {
+                model.log.push((b.len() >> 20) as u8);
+                Command::done()
+            }
         }
     }
     fn view(&self, model: &Model) -> Vec<u8> {
@@ -114,7 +128,7 @@ fn direct(p: u8) -> String {
     let mut steps = Vec::new();
     let mut answer = 5u8;
     for _ in 0..4 {
-        let mut reqs: Vec<Request<Op>> = cmd.effects().map(|Effect::Op(r)| r).collect();
+        let mut reqs: Vec<Request<Op>> = cmd.effects().filter_map(|e| if let Effect::Op(r) = e { Some(r) } else { None }).collect();
         let mut ops: Vec<u8> = reqs.iter().map(|r| r.operation.0).collect();
         ops.sort_unstable();
         let mut evs: Vec<u8> = cmd.events().map(|e| if let Event::Got(v) = e { v } else { 255 }).collect();
@@ -255,8 +269,51 @@ fn malformed_with_pending_work() -> String {
     r.unwrap_or_else(|_| "PANIC".to_string())
 }
 
+/// the bincode bridge: a 5 MiB event is accepted like any other; a response whose length prefix claims more than the
+/// message carries is an error value, not a panic or a giant allocation
+fn bincode_scenarios() -> Vec<(String, String, String)> {
+    let mut out = Vec::new();
+    let r = std::panic::catch_unwind(|| {
+        let bridge = crux_core::bridge::Bridge::new(Core::<App>::new());
+        let n = 5 * 1024 * 1024 + 1usize;
+        let mut ev = vec![2u8, 0, 0, 0];
+        ev.extend((n as u64).to_le_bytes());
+        ev.extend(std::iter::repeat(7u8).take(n));
+        let res = bridge.process_event(&ev);
+        let view = bridge.view().unwrap_or_default();
+        format!("{} view-tail={:?}", if res.is_ok() { "Ok" } else { "Err" }, &view[view.len().saturating_sub(1)..])
+    });
+    out.push(("bincode-big-event".to_string(), r.unwrap_or_else(|_| "PANIC".to_string()), "Ok view-tail=[5]".to_string()));
+    let r = std::panic::catch_unwind(|| {
+        let bridge = crux_core::bridge::Bridge::new(Core::<App>::new());
+        let reqs = bridge.process_event(&[0u8, 0, 0, 0, 8]).expect("start");
+        // one request: u64 count, then (u32 id, u32 variant, u8 op)
+        let id = u32::from_le_bytes([reqs[8], reqs[9], reqs[10], reqs[11]]);
+        let mut resp = u64::MAX.to_le_bytes().to_vec();
+        resp.extend(b"ab");
+        let res = bridge.handle_response(id, &resp);
+        format!("{}", if res.is_ok() { "Ok" } else { "Err" })
+    });
+    out.push(("bincode-huge-length-prefix".to_string(), r.unwrap_or_else(|_| "PANIC".to_string()), "Err".to_string()));
+    let r = std::panic::catch_unwind(|| {
+        let bridge = crux_core::bridge::Bridge::new(Core::<App>::new());
+        let reqs = bridge.process_event(&[0u8, 0, 0, 0, 8]).expect("start");
+        let id = u32::from_le_bytes([reqs[8], reqs[9], reqs[10], reqs[11]]);
+        let mut resp = 3u64.to_le_bytes().to_vec();
+        resp.extend(b"abc");
+        let res = bridge.handle_response(id, &resp);
+        let view = bridge.view().unwrap_or_default();
+        format!("{} view-tail={:?}", if res.is_ok() { "Ok" } else { "Err" }, &view[view.len().saturating_sub(1)..])
+    });
+    out.push(("bincode-string-response".to_string(), r.unwrap_or_else(|_| "PANIC".to_string()), "Ok view-tail=[3]".to_string()));
+    out
+}
+
 fn main() {
     std::panic::set_hook(Box::new(|_| {}));
+    for (name, real, expect) in bincode_scenarios() {
+        println!("{name} REAL {real} | EXPECT {expect}");
+    }
     println!("response-malformed-with-pending-work REAL {} | EXPECT bad=Err then-good-effects=[40] view=[77]", malformed_with_pending_work());
     for p in 0u8..4 {
         println!("bridge-P{p} REAL {} | EXPECT {}", through_bridge(p), direct(p));
